@@ -97,6 +97,13 @@ func emitOptionsProbes(tw *traceWriter, tid int, t tableCase, routers []string, 
 					if m == "OPTIONS" {
 						opt = map[string]interface{}{"st": rec.code, "allow": splitList(rec.hdr.Get("Allow")),
 							"acam": splitList(rec.hdr.Get("Access-Control-Allow-Methods")), "ran": rec.ran, "panic": rec.panicked}
+						// the same question asked with a concrete Accept header: which methods are answered 404 / 405 does not depend on it
+						opt["allowAcc"] = opt["allow"]
+						if hr3, err := (reqSpec{M: m, Path: path, Acc: "application/xml"}).httpRequest(false); err == nil {
+							cell = &obsCell{}
+							rec3 := newRecorderObserve(filtered, hr3, &cell)
+							opt["allowAcc"] = splitList(rec3.hdr.Get("Allow"))
+						}
 					} else {
 						fprobes = append(fprobes, []interface{}{m, rec.codeOrRoute(), rec.ran})
 					}
